@@ -1,4 +1,6 @@
 import MaestroVerif.Lemmas.ExecDemo
+import MaestroVerif.Lemmas.ExecBlame
+import MaestroVerif.Props.C05
 
 /-!
 # C02 — Failure and cancellation stop exactly the dependent sub-graph
@@ -7,8 +9,11 @@ Scope (DESIGN.md §6 C02): the closure half is stated for histories without a
 *study-wide* cancel request (`isCanceled = false`); after such a request nothing
 at all is submitted (C07) and dependents of the steps cancelled by the launch
 loop legitimately stay INITIALIZED.  A job reported CANCELLED *by the scheduler*
-is inside this property.  "Every unrelated step still runs to completion" is the
-liveness half and belongs to C05.
+is inside this property.  "Exactly": `C02_no_collateral` (one poll),
+`C02_no_collateral_history` (whole histories) and `C02_unrelated_complete` show that
+nothing outside the sub-trees of the steps that really ended badly is ever stopped, and
+that at a final verdict every other step has completed; that a final verdict is reached
+is the liveness theorem of C05.
 -/
 namespace MaestroVerif.C02
 open MaestroVerif.Exec MaestroVerif.Gen Relation
@@ -70,5 +75,148 @@ theorem C02_bad_report_queues_subtree {cfg : Cfg} (wf : WFCfg cfg) (g : G) (i : 
 /-! non-vacuity: in the demo history step 2 failed and its dependent 4 was swept -/
 example : (run demoCfg (demoOps.take 5)).isCanceled = false ∧
     (run demoCfg (demoOps.take 5)).failed = [2, 4] := by decide +kernel
+
+/-! ### exactly the dependent sub-graph: nothing else is stopped -/
+
+/-- **One poll stops no step outside the sub-trees of the steps that ended badly in it.**
+Without a cancel request, a step that is failed or cancelled after a poll was so before,
+or is reachable (along dependency edges, possibly in zero steps) from a step `r` whose job
+the scheduler reported FAILED / UNKNOWN / CANCELLED / TIMEDOUT in this poll, or whose
+submission attempts (`cfg.attempts` consecutive submissions, all for `r`) were all refused. -/
+theorem C02_no_collateral {cfg : Cfg} (wf : WFCfg cfg) (g : G) (p : PollIn)
+    (hc : g.isCanceled = false) (h1 : g.cleanup = []) (h2 : g.cancelQ = []) (x : Nat)
+    (hx : x ∈ (poll cfg g p).1.failed ∨ x ∈ (poll cfg g p).1.cancelled) :
+    x ∈ g.failed ∨ x ∈ g.cancelled ∨
+      ∃ r, (BadRep p r ∨ Exhausted cfg (poll cfg g p).1.log r) ∧ Dag.Reach cfg.dag r x := by
+  have fr := fr_poll wf g p hc
+  have : Stopped (poll cfg g p).1 x := by
+    rcases hx with h | h
+    · exact Or.inl h
+    · exact Or.inr (Or.inl h)
+  rcases fr.stop x this with h | ⟨r, hr, hs⟩
+  · simp only [Stopped, h1, h2, List.not_mem_nil, or_false] at h
+    rcases h with h | h
+    · exact Or.inl h
+    · exact Or.inr (Or.inl h)
+  · exact Or.inr (Or.inr ⟨r, hr, (mem_subtree wf).mp hs⟩)
+
+/-- histories without a cancel request, with the polls' scheduler answers -/
+inductive ReachNC (cfg : Cfg) : List PollIn → G → Prop
+  | init : ReachNC cfg [] (init cfg)
+  | poll {ps : List PollIn} {g : G} (p : PollIn) :
+      ReachNC cfg ps g → WFPoll g p → ReachNC cfg (ps ++ [p]) (poll cfg g p).1
+
+theorem ReachNC.reachable {cfg : Cfg} {ps : List PollIn} {g : G} (h : ReachNC cfg ps g) :
+    Reachable cfg g := by
+  induction h with
+  | init => exact Reachable.init
+  | poll p _ hp ih => exact Reachable.poll p ih hp
+
+theorem ReachNC.notCanceled {cfg : Cfg} {ps : List PollIn} {g : G} (h : ReachNC cfg ps g) :
+    g.isCanceled = false := by
+  induction h with
+  | init => rfl
+  | poll p _ _ ih => rw [poll_isCanceled]; exact ih
+
+/-- **Over a whole history: every stopped step has an ancestor (or is itself a step) that
+really ended badly.**  After any sequence of polls without a cancel request, a failed or
+cancelled step is reachable from a step that some poll's scheduler answer reported
+FAILED / UNKNOWN / CANCELLED / TIMEDOUT, or whose submission attempts were exhausted. -/
+theorem C02_no_collateral_history {cfg : Cfg} (wf : WFCfg' cfg) {ps : List PollIn} {g : G}
+    (h : ReachNC cfg ps g) (x : Nat) (hx : x ∈ g.failed ∨ x ∈ g.cancelled) :
+    ∃ r, Dag.Reach cfg.dag r x ∧ (Exhausted cfg g.log r ∨ ∃ p, p ∈ ps ∧ BadRep p r) := by
+  induction h with
+  | init => simp [init] at hx
+  | @poll ps g p hr hp ih =>
+    have inv := Inv_reachable wf hr.reachable
+    have fr := fr_poll wf.toWFCfg g p hr.notCanceled
+    rcases C02_no_collateral wf.toWFCfg g p hr.notCanceled inv.noClean inv.noCancQ x hx with
+      h | h | ⟨r, hr', hreach⟩
+    · obtain ⟨r, h1, h2⟩ := ih (Or.inl h)
+      refine ⟨r, h1, ?_⟩
+      rcases h2 with h2 | ⟨q, hq, hb⟩
+      · exact Or.inl (h2.mono fr.log)
+      · exact Or.inr ⟨q, List.mem_append_left _ hq, hb⟩
+    · obtain ⟨r, h1, h2⟩ := ih (Or.inr h)
+      refine ⟨r, h1, ?_⟩
+      rcases h2 with h2 | ⟨q, hq, hb⟩
+      · exact Or.inl (h2.mono fr.log)
+      · exact Or.inr ⟨q, List.mem_append_left _ hq, hb⟩
+    · refine ⟨r, hreach, ?_⟩
+      rcases hr' with hb | he
+      · exact Or.inr ⟨p, List.mem_append_right _ (List.mem_singleton.mpr rfl), hb⟩
+      · exact Or.inl he
+
+/-- **… while every step that does not depend on such a step is run to completion**: when
+the study reaches a final verdict (C05 proves it does under fair scheduler answers), every
+step none of whose ancestors (nor itself) ended badly has completed successfully. -/
+theorem C02_unrelated_complete {cfg : Cfg} (wf : WFCfg' cfg) {ps : List PollIn} {g : G}
+    (h : ReachNC cfg ps g) (hv : verdict cfg g ≠ .RUNNING) (x : Nat) (hxn : x ≤ cfg.n)
+    (hclean : ∀ r, Dag.Reach cfg.dag r x → ¬ Exhausted cfg g.log r ∧ ∀ p, p ∈ ps → ¬ BadRep p r) :
+    x ∈ g.completed := by
+  have hall : C05.allResolved cfg g := by
+    apply Classical.byContradiction
+    intro hn
+    apply hv
+    rw [C05.C05_verdict_running]
+    refine ⟨?_, hn⟩
+    rintro ⟨hc, _⟩
+    rw [h.notCanceled] at hc; cases hc
+  rcases hall x hxn with hc | hf | hcn
+  · exact hc
+  · obtain ⟨r, h1, h2⟩ := C02_no_collateral_history wf h x (Or.inl hf)
+    rcases h2 with h2 | ⟨p, hp, hb⟩
+    · exact absurd h2 (hclean r h1).1
+    · exact absurd hb ((hclean r h1).2 p hp)
+  · obtain ⟨r, h1, h2⟩ := C02_no_collateral_history wf h x (Or.inr hcn)
+    rcases h2 with h2 | ⟨p, hp, hb⟩
+    · exact absurd h2 (hclean r h1).1
+    · exact absurd hb ((hclean r h1).2 p hp)
+
+
+/-- the polls of a history that contains no cancel request -/
+def pollsOf : List Op → List PollIn
+  | [] => []
+  | .poll p :: ops => p :: pollsOf ops
+  | .cancel :: ops => pollsOf ops
+
+def wfPolls (cfg : Cfg) : G → List PollIn → Bool
+  | _, [] => true
+  | g, p :: ps => wfPollB g p && wfPolls cfg (poll cfg g p).1 ps
+
+theorem reachNC_of_wfPolls (cfg : Cfg) : ∀ (ps : List PollIn) (qs : List PollIn) (g : G),
+    ReachNC cfg qs g → wfPolls cfg g ps = true →
+    ReachNC cfg (qs ++ ps) (ps.foldl (fun g p => (poll cfg g p).1) g) := by
+  intro ps
+  induction ps with
+  | nil => intro qs g h _; simpa using h
+  | cons p ps ih =>
+    intro qs g h hw
+    simp only [wfPolls, Bool.and_eq_true] at hw
+    have := ih (qs ++ [p]) _ (ReachNC.poll p h (wfPollB_sound hw.1)) hw.2
+    simpa using this
+
+/-! non-vacuity: the first five operations of the demo history are polls; step 2 is reported
+FAILED in the fifth, its dependent 4 is swept; step 3 (no bad ancestor) completed -/
+def demoPolls : List PollIn :=
+  [⟨.OK, []⟩, ⟨.OK, [(1, some .FINISHED)]⟩, ⟨.OK, [(2, some .TIMEDOUT), (3, none)]⟩, ⟨.NOJOBS, []⟩,
+   ⟨.OK, [(3, some .FINISHED), (2, some .FAILED)]⟩]
+
+theorem demo_reachNC : ReachNC demoCfg demoPolls
+    (demoPolls.foldl (fun g p => (poll demoCfg g p).1) (init demoCfg)) := by
+  have := reachNC_of_wfPolls demoCfg demoPolls [] (init demoCfg) ReachNC.init (by decide +kernel)
+  simpa using this
+
+example : (demoPolls.foldl (fun g p => (poll demoCfg g p).1) (init demoCfg)).failed = [2, 4] ∧
+    (demoPolls.foldl (fun g p => (poll demoCfg g p).1) (init demoCfg)).completed = [0, 1, 3] ∧
+    BadRep ⟨.OK, [(3, some .FINISHED), (2, some .FAILED)]⟩ 2 ∧ Dag.Reach demoCfg.dag 2 4 := by
+  refine ⟨by decide +kernel, by decide +kernel, ⟨.FAILED, by decide, Or.inl rfl⟩, ?_⟩
+  exact Relation.ReflTransGen.single (show (4 : Nat) ∈ demoCfg.dag.adj 2 by decide)
+
+/-- the witness the history theorem produces for the swept step 4 -/
+example : ∃ r, Dag.Reach demoCfg.dag r 4 ∧
+    (Exhausted demoCfg (demoPolls.foldl (fun g p => (poll demoCfg g p).1) (init demoCfg)).log r ∨
+      ∃ p, p ∈ demoPolls ∧ BadRep p r) :=
+  C02_no_collateral_history demo_wf demo_reachNC 4 (Or.inl (by decide +kernel))
 
 end MaestroVerif.C02
